@@ -29,7 +29,7 @@ COLLS = ["missing_licenses", "unused_licenses", "bad_licenses", "deprecated_lice
 
 
 def generate(tier, seed):
-    n = 400 if tier == "quick" else 60000
+    n = 1200 if tier == "quick" else 60000
     pairs = list(itertools.combinations(trees.DEFECTS, 2))
     cases = []
     for k in range(n):
